@@ -2545,8 +2545,21 @@ fn a6_eval(sp: &A2Space, variant: usize, pi: usize, verbose: bool) -> Vec<V3> {
 }
 
 fn a6_run(rep: &mut Report, _thorough: bool) -> u64 {
-    let sp = a2_space(2);
-    rep.notes.push(format!("a6: as-prepend action (fixed ASN / leftmost) x (plain / confederation peer) x {} AS_PATHs: no panic, well-formed result, members preserved", sp.paths.len()));
+    let mut sp = a2_space(2);
+    // leading segments that are (almost) full: the prepended members do not fit the one-octet count
+    let long = |t: u8, n: usize| -> (u8, Vec<u32>) { (t, (0..n).map(|i| 100 + (i as u32 % 50)).collect()) };
+    for segs in [
+        vec![long(SEG_SEQ, 253)],
+        vec![long(SEG_SEQ, 254)],
+        vec![long(SEG_SEQ, 255)],
+        vec![long(SEG_SEQ, 255), long(SEG_SEQ, 255)],
+        vec![long(SEG_CSEQ, 254)],
+        vec![long(SEG_CSEQ, 255), long(SEG_SEQ, 1)],
+        vec![long(SEG_SET, 255)],
+    ] {
+        sp.paths.push(Some(segs));
+    }
+    rep.notes.push(format!("a6: as-prepend action (fixed ASN / leftmost) x (plain / confederation peer) x {} AS_PATHs (incl. leading segments of 253 / 254 / 255 members): no panic, well-formed result, members preserved", sp.paths.len()));
     let n = (sp.paths.len() * 4) as u64;
     let dist = Distinct::new();
     let sink = VioSink::new();
